@@ -27,7 +27,9 @@ RULE = (
     'each drawing a subset of: simulator-chosen iteration order of every set '
     'the checkers build (seam S1), state bijection onto another type family, '
     'shuffled S/R/L and label order, omitted S, duplicated transitions, atom '
-    'renaming, unreachable padding states, initial states.  evaluations = '
+    'renaming, unreachable padding states, initial states, other container '
+    'types for S/R/S0/labels (tuple, set, frozenset, dict keys, one-shot '
+    'iterator).  evaluations = '
     'executions (baseline + perturbed + stage-2 interpreter evaluations).  A '
     'case is NON-TRIVIAL when at least one of its executions made a '
     'non-identity scheduler decision at a site with >=2 elements or used a '
@@ -142,7 +144,7 @@ def minimise_pair(case, pa, pb, timeout, budget=120):
     # 1. presentation components back to identity
     for p in (pa, pb):
         for key in ('pad', 'amap', 'S0', 'lab_rot', 'S_given', 'smap', 'S',
-                    'R', 'L'):
+                    'R', 'L', 'ctype'):
             if tests[0] >= budget:
                 break
             if p.get(key) == ident.get(key):
